@@ -265,7 +265,23 @@ def evaluate(ctx, binpath, cases, stream, threads, coq=True, known_seen=None):
     return runs
 
 
-def permutation_stream(ctx, binpath, cases, per_case):
+def load_corpus(ctx):
+    import os
+    out = []
+    for prop in ("C02", "C01"):
+        d = os.path.join(vf.VERIF, "corpus", prop)
+        if not os.path.isdir(d):
+            continue
+        for fn in sorted(os.listdir(d)):
+            if fn.endswith(".json"):
+                c = json.load(open(os.path.join(d, fn)))
+                before, update = split_ds(ctx.rng, c["ds"])
+                c.update(ds_before=before, ds_update=update, kinds=KINDS, max_assign=81, seed=7, sols=pattern_solutions(c["ds"], c["q"]))
+                out.append(c)
+    return out
+
+
+def permutation_stream(ctx, binpath, cases, per_case, name="bgp_permutations"):
     """every permutation of each basic graph pattern gives the solutions of the original text"""
     pc = []
     for c in cases:
@@ -292,7 +308,7 @@ def permutation_stream(ctx, binpath, cases, per_case):
                           {"what": "permuting the triple patterns of a basic graph pattern changed the solutions",
                            "original_query": L.print_query(c["orig"]["q"], None, False), "permuted_query": L.print_query(c["q"], None, False),
                            "implementation": [r[:20] for r in rows[:3]], "expected": want[:20]})
-    ctx.stream("bgp_permutations", cases=len(pc), violations=n_bad)
+    ctx.stream(name, cases=len(pc), violations=n_bad)
 
 
 def replay_known(ctx, binpath):
@@ -329,6 +345,10 @@ def run(ctx):
     ctx.coq("Sparql", "C02.v")
     binpath = ctx.harness("c02")
     replay_known(ctx, binpath)
+    corpus = load_corpus(ctx)
+    if corpus:
+        evaluate(ctx, binpath, corpus, "corpus", [1, 2, 4, 16], coq=True)
+        permutation_stream(ctx, binpath, corpus, per_case=24, name="corpus_bgp_permutations")
     n = 1500 if ctx.thorough else 160
     cases, ops = gen_cases(ctx, n)
     for c in cases[:2]:
